@@ -527,6 +527,26 @@ def Store.onlyBy (σ : Store) (c p : Nat) : Bool :=
 
 def Store.notScan (σ : Store) (c : Nat) : Bool := clsOf σ c != some .scan
 
+/-- the child ids a node lists (`[]` for an id that names no object) -/
+def Store.kidsOf (σ : Store) (k : Nat) : List Nat :=
+  match σ.get? k with
+  | some nd => nd.allKids
+  | none => []
+
+def addNew (acc : List Nat) (m : Nat) : List Nat := if m ∈ acc then acc else acc ++ [m]
+
+/-- one more level: the set `s` together with everything its members list -/
+def Store.grow (σ : Store) (s : List Nat) : List Nat := (s.flatMap σ.kidsOf).foldl addNew s
+
+/-- everything reachable from `s` through child lists in at most `fuel` steps -/
+def Store.closure (σ : Store) : Nat → List Nat → List Nat
+  | 0, s => s
+  | f + 1, s => σ.closure f (σ.grow s)
+
+/-- `p` is `c` or sits below `c` (decided by exploring at most `size` levels below `c`; on the
+    forests the discipline maintains no chain is longer than that — `C02_depth_le_size`) -/
+def Store.reaches (σ : Store) (c p : Nat) : Bool := (σ.closure σ.size [c]).contains p
+
 /-- the tags the statement demands on every element of class `c` -/
 def Cls.tags (c : Cls) : List String := [c.mainType, "structure_doc", "physical_structure_doc", "pagexml_doc"]
 
@@ -541,19 +561,21 @@ def Op.newKids : Op → List Nat
   | .mkTable _ rs => rs
   | _ => []
 
-/-- The histories for which the invariants are claimed: an element is attached only while no
-    container lists it, a scan is never attached, `set_parent` / `set_as_parent` are called with
-    the element's own container (or for an unlisted element), the parser's attach statements
-    act on a region / table that is not yet attached itself, and the tags the statement
-    demands are not removed. -/
+/-- The histories for which the invariants are claimed (the property's "trees"): an element is
+    attached only while no container lists it, and never below itself (`add_child` of the container
+    itself or of one of its ancestors would close a cycle); a scan is never attached;
+    `set_parent` / `set_as_parent` are called with the element's own container (or for an
+    unlisted element); the parser's attach statements act on a region / table that is not yet
+    attached itself (and do not attach it to itself); the tags the statement demands are not
+    removed. -/
 def Pre (σ : Store) (op : Op) : Bool :=
   op.refs.all σ.has &&
   match op with
-  | .addChild _ c _ => σ.free c && σ.notScan c
+  | .addChild p c _ => σ.free c && σ.notScan c && !σ.reaches c p
   | .setParent c p => σ.onlyBy c p && σ.notScan c
   | .setAsParent p cs => cs.all (fun c => σ.onlyBy c p && σ.notScan c)
   | .attachLines p cs | .attachRegions p cs | .attachRows p cs =>
-    σ.free p && σ.notScan p && cs.all (fun c => σ.onlyBy c p && σ.notScan c)
+    σ.free p && σ.notScan p && cs.all (fun c => σ.onlyBy c p && σ.notScan c) && cs.all (fun c => c != p)
   | .removeType n ts =>
     match clsOf σ n with
     | some c => ts.all (fun t => !c.tags.contains t)
